@@ -102,6 +102,12 @@ func c10ValidTextLower(t *rapid.T, c *C10Case) string {
 		sal := int64(uni(t, "sal", -2, 6))
 		c.Expect[name] = tag
 		c.Sal[name] = sal
+		if pct(t, fmt.Sprintf("emptybody%d", i), 10) {
+			// a rule with an empty body: it exists, runs nothing and returns nothing
+			c.Expect[name] = -1
+			fmt.Fprintf(&sb, "rule \"%s\" \"desc_%d\" salience %d\nbegin\nend\n", name, i, sal)
+			continue
+		}
 		fmt.Fprintf(&sb, "rule \"%s\" \"desc_%d\" salience %d\nbegin\n  S ( @name )\n", name, i, sal)
 		for j, ln := range c10BodyLines {
 			if j == 0 || pct(t, fmt.Sprintf("line%d_%d", i, j), 35) {
@@ -301,7 +307,7 @@ func guard(f func() error) (err error, pan string) {
 func init() {
 	register(&Prop{
 		ID:   "C10",
-		Rule: "texts: valid rule texts generated by construction (1-4 rules over a 6-name universe overlapping the installed set, bodies drawn from all statement kinds, optionally an assignment of a generated arithmetic expression with bracket groups and call arguments nested up to depth 5 inside operator chains), the same texts after 1-4 token-level mutations (delete, duplicate, swap, replace/insert a vocabulary token, truncate), texts with a duplicated rule (same name), token soups from the language vocabulary, arbitrary strings / bytes; each text is submitted to all five compile entry points (full build, incremental build, pool construction, pool full update, pool incremental update) from a known installed state S0 of tagged observer rules (builders also from the empty state); oracle: every call returns, the five verdicts agree, a rejected text leaves S0 (names, results, execution order) untouched, an accepted text installs exactly the rules it defines (full) or S0 overridden by them (incremental) - by construction for generated texts, differentially across entry points otherwise - and a repeated rule name is rejected by all. Texts whose estimated compile cost (dsl.ParseCost, bracket groups nested inside operator chains) exceeds 400 are not submitted but counted: known finding compile-cost-blowup. Half of the non-valid texts are followed by a valid text submitted through the same entry points to the same objects and to fresh ones: verdict and installed set must be the same (a rejected text leaves nothing behind). Non-trivial: mutated / duplicated-name / soup text, or a text accepted by at least one entry point; distinct by text hash",
+		Rule: "texts: valid rule texts generated by construction (1-4 rules over a 6-name universe overlapping the installed set, bodies drawn from all statement kinds or empty (10% of the rules; an empty-bodied rule exists and yields nothing), optionally an assignment of a generated arithmetic expression with bracket groups and call arguments nested up to depth 5 inside operator chains), the same texts after 1-4 token-level mutations (delete, duplicate, swap, replace/insert a vocabulary token, truncate), texts with a duplicated rule (same name), token soups from the language vocabulary, arbitrary strings / bytes; each text is submitted to all five compile entry points (full build, incremental build, pool construction, pool full update, pool incremental update) from a known installed state S0 of tagged observer rules (builders also from the empty state); oracle: every call returns, the five verdicts agree, a rejected text leaves S0 (names, results, execution order) untouched, an accepted text installs exactly the rules it defines (full) or S0 overridden by them (incremental) - by construction for generated texts, differentially across entry points otherwise - and a repeated rule name is rejected by all. Texts whose estimated compile cost (dsl.ParseCost, bracket groups nested inside operator chains) exceeds 400 are not submitted but counted: known finding compile-cost-blowup. Half of the non-valid texts are followed by a valid text submitted through the same entry points to the same objects and to fresh ones: verdict and installed set must be the same (a rejected text leaves nothing behind). Non-trivial: mutated / duplicated-name / soup text, or a text accepted by at least one entry point; distinct by text hash",
 		New:  func() interface{} { return &C10Case{} },
 		Gen: func(t *rapid.T) interface{} {
 			c := &C10Case{State: "s0"}
@@ -326,6 +332,9 @@ func init() {
 				sort.Strings(names)
 				dn := names[uni(t, "dup", 0, len(names)-1)]
 				dup := fmt.Sprintf("rule \"%s\" \"again\" salience %d\nbegin\n  S ( @name )\n  return 7\nend\n", dn, uni(t, "dupsal", -1, 3))
+				if pct(t, "dup_empty", 30) {
+					dup = fmt.Sprintf("rule \"%s\" \"again\" salience %d\nbegin\nend\n", dn, uni(t, "dupsal_e", -1, 3))
+				}
 				if pct(t, "dup_first", 50) {
 					c.Text = []byte(dup + base)
 				} else {
@@ -637,6 +646,13 @@ func init() {
 					}
 				}
 				for n, tag := range c.Expect {
+					if tag == -1 {
+						x.Class("text-with-an-empty-bodied-rule")
+						if fullObs.Results[n] != "" {
+							x.Violation("full-body", "rule %q has an empty body but yields %q\n%s", n, fullObs.Results[n], text)
+						}
+						continue
+					}
 					if fullObs.Results[n] != fmt.Sprint(tag) {
 						x.Violation("full-body", "rule %q yields %q, want %d\n%s", n, fullObs.Results[n], tag, text)
 					}
